@@ -46,9 +46,18 @@ func NewParser(srcPath, dstPath string) (*Parser, error) {
 		return nil, err
 	}
 
+	// Load the package from the directory of the setup file, so that the result does not
+	// depend on the working directory (from outside the module the setup file would
+	// otherwise be loaded alone, without the other files of its package).
+	absSrcPath, err := filepath.Abs(srcPath)
+	if err != nil {
+		return nil, err
+	}
+
 	dstStat, _ := os.Stat(dstPath)
 	var parseErr error
 	cfg := &packages.Config{
+		Dir:        filepath.Dir(absSrcPath),
 		Mode:       parserLoadMode,
 		BuildFlags: []string{"-tags", buildTag},
 		Fset:       fileSet,
@@ -79,7 +88,7 @@ func NewParser(srcPath, dstPath string) (*Parser, error) {
 	if dstStat != nil {
 		cfg.Overlay = overlayOutputFile(srcPath, dstPath)
 	}
-	pkgs, err := packages.Load(cfg, "file="+srcPath)
+	pkgs, err := packages.Load(cfg, "file="+absSrcPath)
 	if err != nil {
 		return nil, logger.Errorf("%v: failed to load type information: \n%w", srcPath, err)
 	}
